@@ -1154,15 +1154,15 @@ int tls_secrets_print(FILE *fp,
 	// 这个函数不支持GCM模式套件，使用GCM模式时key_block_len更短
 	// 可以考虑通过key_block_len判断CBC还是GCM，或者在参数上增加cipher_suite
 	// FIXME: 如果增加了GCM套件，需要更新这个函数
-	format_bytes(stderr, format, indent, "pre_master_secret", pre_master_secret, pre_master_secret_len);
-	format_bytes(stderr, format, indent, "client_random", client_random, 32);
-	format_bytes(stderr, format, indent, "server_random", server_random, 32);
-	format_bytes(stderr, format, indent, "master_secret", master_secret, 48);
-	format_bytes(stderr, format, indent, "client_write_mac_key", key_block, 32);
-	format_bytes(stderr, format, indent, "server_write_mac_key", key_block + 32, 32);
-	format_bytes(stderr, format, indent, "client_write_enc_key", key_block + 64, 16);
-	format_bytes(stderr, format, indent, "server_write_enc_key", key_block + 80, 16);
-	format_print(stderr, format, indent, "\n");
+	format_bytes(fp, format, indent, "pre_master_secret", pre_master_secret, pre_master_secret_len);
+	format_bytes(fp, format, indent, "client_random", client_random, 32);
+	format_bytes(fp, format, indent, "server_random", server_random, 32);
+	format_bytes(fp, format, indent, "master_secret", master_secret, 48);
+	format_bytes(fp, format, indent, "client_write_mac_key", key_block, 32);
+	format_bytes(fp, format, indent, "server_write_mac_key", key_block + 32, 32);
+	format_bytes(fp, format, indent, "client_write_enc_key", key_block + 64, 16);
+	format_bytes(fp, format, indent, "server_write_enc_key", key_block + 80, 16);
+	format_print(fp, format, indent, "\n");
 	return 1;
 }
 
